@@ -353,4 +353,115 @@ theorem data_line_not_header (w : Nat) (cell : Cell) (rest : Str) (hnum : ∀ s,
     rw [this]
     simp [looksLikeHeader, isAlpha, isUpper, isLower]
 
+/-! ## rename_index -/
+
+theorem prefixes_disjoint (c : Str) :
+    (startsWith thetaP c = true → startsWith omegaP c = false ∧ startsWith sigmaP c = false)
+    ∧ (startsWith omegaP c = true → startsWith sigmaP c = false) := by
+  have h1 : thetaP = ['T', 'H', 'E', 'T', 'A'] := by decide
+  have h2 : omegaP = ['O', 'M', 'E', 'G', 'A'] := by decide
+  have h3 : sigmaP = ['S', 'I', 'G', 'M', 'A'] := by decide
+  rw [h1, h2, h3]
+  cases c with
+  | nil => simp [startsWith, List.isPrefixOf]
+  | cons a t =>
+    simp only [startsWith, List.isPrefixOf, Bool.and_eq_true, beq_iff_eq, Bool.and_eq_false_imp]
+    constructor
+    · rintro ⟨rfl, _⟩
+      constructor <;> (intro h; exact absurd h (by decide))
+    · rintro ⟨rfl, _⟩ h
+      exact absurd h (by decide)
+
+/-- Reordering to THETA, OMEGA, SIGMA loses and duplicates nothing: for every list of labels that
+    each start with THETA, OMEGA or SIGMA (any length, any order — NONMEM writes THETA, SIGMA,
+    OMEGA) the new order is a permutation of the old one. -/
+theorem rename_order_perm (cols : List Str)
+    (h : ∀ c ∈ cols, startsWith thetaP c = true ∨ startsWith omegaP c = true ∨ startsWith sigmaP c = true) :
+    List.Perm (orderedLabels cols) cols := by
+  induction cols with
+  | nil => simp [orderedLabels]
+  | cons c cs ih =>
+    have ih' := ih (fun x hx => h x (by simp [hx]))
+    have hd := prefixes_disjoint c
+    unfold orderedLabels at ih' ⊢
+    rcases h c (by simp) with ht | ho | hs
+    · obtain ⟨ho, hs⟩ := hd.1 ht
+      simp only [List.filter_cons, ht, ho, hs, if_true, Bool.false_eq_true, if_false, List.cons_append]
+      exact List.Perm.cons c ih'
+    · have hs := hd.2 ho
+      have ht : startsWith thetaP c = false := by
+        cases hx : startsWith thetaP c with
+        | false => rfl
+        | true => have := (hd.1 hx).1; rw [ho] at this; cases this
+      simp only [List.filter_cons, ht, ho, hs, if_true, Bool.false_eq_true, if_false]
+      have : List.Perm (List.filter (startsWith thetaP) cs ++ c :: List.filter (startsWith omegaP) cs
+            ++ List.filter (startsWith sigmaP) cs)
+          (c :: (List.filter (startsWith thetaP) cs ++ List.filter (startsWith omegaP) cs
+            ++ List.filter (startsWith sigmaP) cs)) := by
+        rw [List.append_assoc, List.append_assoc]
+        exact List.perm_middle
+      exact this.trans (List.Perm.cons c ih')
+    · have ht : startsWith thetaP c = false := by
+        cases hx : startsWith thetaP c with
+        | false => rfl
+        | true => have := (hd.1 hx).2; rw [hs] at this; cases this
+      have ho : startsWith omegaP c = false := by
+        cases hx : startsWith omegaP c with
+        | false => rfl
+        | true => have := hd.2 hx; rw [hs] at this; cases this
+      simp only [List.filter_cons, ht, ho, hs, if_true, Bool.false_eq_true, if_false]
+      exact List.perm_middle.trans (List.Perm.cons c ih')
+
+theorem renameThetaAux_nil (fuel : Nat) : renameThetaAux fuel [] = [] := by
+  cases fuel <;> rfl
+
+/-- `THETAn` becomes `THETA(n)` for every n. -/
+theorem rename_theta (n : Nat) :
+    renameTheta (thetaP ++ natDigits n) = thetaP ++ '(' :: natDigits n ++ [')'] := by
+  have h1 : thetaP = ['T', 'H', 'E', 'T', 'A'] := by decide
+  have h5 : "THETA".toList = ['T', 'H', 'E', 'T', 'A'] := by decide
+  have h6 : "THETA(".toList = ['T', 'H', 'E', 'T', 'A', '('] := by decide
+  have htd : takeDigits (natDigits n) = (natDigits n, []) := takeDigits_all _ (natDigits_allDig n)
+  obtain ⟨c, t, hct⟩ : ∃ c t, natDigits n = c :: t := by
+    cases h : natDigits n with
+    | nil => exact absurd h (natDigits_ne_nil n)
+    | cons c t => exact ⟨c, t, rfl⟩
+  rw [h1]
+  unfold renameTheta
+  simp only [List.cons_append, List.nil_append, List.length_cons]
+  rw [renameThetaAux]
+  simp only [startsWith, h5, h6, List.isPrefixOf, beq_self_eq_true, Bool.and_self, if_true,
+    List.drop_succ_cons, List.drop_zero, htd, renameThetaAux_nil]
+  simp [hct]
+
+/-- The THETA renaming is injective on NONMEM's theta labels (no two parameters get one name). -/
+theorem rename_theta_injective (a b : Nat)
+    (h : renameTheta (thetaP ++ natDigits a) = renameTheta (thetaP ++ natDigits b)) : a = b := by
+  rw [rename_theta, rename_theta] at h
+  have h1 : thetaP = ['T', 'H', 'E', 'T', 'A'] := by decide
+  rw [h1] at h
+  simp only [List.cons_append, List.nil_append, List.cons.injEq, true_and] at h
+  have hl : (natDigits a ++ [')']).length = (natDigits b ++ [')']).length := by rw [h]
+  simp only [List.length_append, List.length_singleton, Nat.add_right_cancel_iff] at hl
+  exact natDigits_injective (List.append_inj_left h hl)
+
+/-- Labels without a `T` (OMEGA(i,j), SIGMA(i,j)) are not touched by the renaming. -/
+theorem rename_other_unchanged (fuel : Nat) (cs : Str) (h : ∀ c ∈ cs, c ≠ 'T') :
+    renameThetaAux fuel cs = cs := by
+  induction fuel generalizing cs with
+  | zero => rfl
+  | succ fuel ih =>
+    cases cs with
+    | nil => rfl
+    | cons c rest =>
+      have hc : c ≠ 'T' := h c (by simp)
+      have h5 : "THETA".toList = ['T', 'H', 'E', 'T', 'A'] := by decide
+      have hs : startsWith "THETA".toList (c :: rest) = false := by
+        simp only [startsWith, h5, List.isPrefixOf, Bool.and_eq_false_imp, beq_iff_eq]
+        intro e
+        first | exact absurd e hc | exact absurd e.symm hc
+      rw [renameThetaAux]
+      simp only [hs, Bool.false_eq_true, if_false]
+      rw [ih rest (fun x hx => h x (by simp [hx]))]
+
 end Pharmpy.C20
